@@ -2,7 +2,7 @@
    [build_checked] is the model of spox.build (coq/Build.v build_public) followed by the model's own validators;
    the per-run correspondence shows that the real build returns exactly [build_checked]'s model (names included). *)
 From Coq Require Import List String NArith Arith Bool.
-From Spox Require Import Base IR Show Build Validate BuildFacts ScopeFacts EmitFacts SsaFacts.
+From Spox Require Import Base IR Show Build Validate BuildFacts ScopeFacts EmitFacts SsaFacts GlobalFacts.
 Import ListNotations.
 
 (* A model is returned only after the final structural check (per-graph SSA without shadowing, definition before use
@@ -80,3 +80,20 @@ Theorem C02_build_main_top_level_ssa :
   match b_graph b with MGraph _ ms _ => NoDup (tops ms) end.
 Proof. exact build_main_top_ssa. Qed.
 Print Assumptions C02_build_main_top_level_ssa.
+
+(* The whole model, by construction (no validator), for programs without inlined models: every value name - graph inputs and node
+   outputs of the main graph and of every nested graph at any depth - is defined exactly once.  Premise (decidable, evaluated on every
+   program of the check): no source node occurs twice in the unfolding of the ownership map (spec_all). *)
+Theorem C02_value_names_unique_in_the_whole_model_by_construction :
+  forall vi ffuel p un main b,
+    build_main_gen vi ffuel p un main = inl b -> global_premises_b p main = true -> NoDup (defs_graph (b_graph b)).
+Proof. exact build_main_global. Qed.
+Print Assumptions C02_value_names_unique_in_the_whole_model_by_construction.
+
+Theorem C02_public_build_value_names_unique_by_construction :
+  forall p r m inputs outputs,
+    build_public p r = inl m -> all_vars (r_inputs r) = Some inputs -> all_vars (r_outputs r) = Some outputs ->
+    exists args, (r_drop r = false -> args = map snd inputs) /\ (forall a, In a args -> In a (map snd inputs)) /\
+      (global_premises_b (with_main p (Some args) outputs) 0 = true -> NoDup (defs_graph (mmain m))).
+Proof. exact build_public_global. Qed.
+Print Assumptions C02_public_build_value_names_unique_by_construction.
